@@ -244,7 +244,7 @@ def _gpb(n):
     @obligation("C18", f"gpb1{N}", ensures=[f"O-C18-gpb1.weights{N}", f"O-C18-gpb1.mode-probabilities{N}", f"O-C18-gpb1.mix{N}"],
                 fns=[GP + "GeneralizedPseudoBayesian1.update", GP + "GeneralizedPseudoBayesian1._constructMixMatrix"], mode="R",
                 bounded=f"{n} models, measurement dimension 1",
-                note="GPB1: model weights = likelihood * mode probability, renormalised (>= 0, sum 1); the mixing matrix has unit column sums, so the mode probabilities stay a probability vector")
+                note="GPB1: model weights = likelihood * mode probability, renormalised (>= 0, sum 1); the mixing matrix has unit column sums, so the mode probabilities stay a probability vector; the mode probabilities left for the next update are the mixing matrix applied to this update's posterior weights")
     def h(vc):
         mp = _weights(vc, n, "p")
         nis = [vc.real(f"nis{i}", 0, 1e4) for i in range(n)]
@@ -276,8 +276,11 @@ def _gpb(n):
         vc.ensure(f"O-C18-gpb1.weights{N}", vc.And(vc.eq(sw, 1, 1e-9), *[vc.le(0, x) for x in f.model_weights],
                                                     *[vc.implies(vc.Not(under), vc.eq(f.model_weights[i] * c, lik[i] * mp[i], 1e-9)) for i in range(n)]))
         sp = sum(list(f.mode_probabilities)[1:], f.mode_probabilities[0])
-        vc.ensure(f"O-C18-gpb1.mode-probabilities{N}", vc.And(vc.eq(sp, 1, 1e-9), *[vc.le(0, x) for x in f.mode_probabilities]))
         M = f._constructMixMatrix()
+        # the prior of the NEXT update is the mixed POSTERIOR of this one (Bayes recursion over the observation sequence): M @ model_weights
+        mixed = [sum((M[i, j] * f.model_weights[j] for j in range(1, n)), M[i, 0] * f.model_weights[0]) for i in range(n)]
+        vc.ensure(f"O-C18-gpb1.mode-probabilities{N}", vc.And(vc.eq(sp, 1, 1e-9), *[vc.le(0, x) for x in f.mode_probabilities],
+                                                               *[vc.close(f.mode_probabilities[i], mixed[i], 1e-9) for i in range(n)]))
         vc.ensure(f"O-C18-gpb1.mix{N}", vc.And(*[vc.eq(sum((M[i, j] for i in range(1, n)), M[0, j]), 1, 1e-9) for j in range(n)],
                                                 *[vc.le(0, M[i, j]) for i in range(n) for j in range(n)]))
     return h
